@@ -199,6 +199,26 @@ func (f *flow) cl(v ssa.Value, depth int, seen map[ssa.Value]bool) []leaf {
 		return f.cl(v.X, depth+1, seen)
 	case *ssa.Alloc:
 		return f.allocElems(v, depth, seen)
+	case *ssa.MakeSlice:
+		// a slice filled element by element (args[i] = …): the union of what is stored into it
+		var out []leaf
+		if refs := v.Referrers(); refs != nil {
+			for _, r := range *refs {
+				if ia, ok := r.(*ssa.IndexAddr); ok {
+					if irefs := ia.Referrers(); irefs != nil {
+						for _, ir := range *irefs {
+							if st, ok := ir.(*ssa.Store); ok && st.Addr == ssa.Value(ia) {
+								out = append(out, f.cl(st.Val, depth+1, seen)...)
+							}
+						}
+					}
+				}
+			}
+		}
+		if out == nil {
+			out = []leaf{{Kind: "CONST", Const: ""}}
+		}
+		return out
 	case *ssa.Parameter:
 		fn := v.Parent()
 		idx := -1
@@ -392,6 +412,17 @@ func (f *flow) callResult(call *ssa.Call, idx int, depth int, seen map[ssa.Value
 		if b, ok := com.Value.(*ssa.Builtin); ok {
 			return []leaf{{Kind: "SAFE", Info: "builtin " + b.Name()}}
 		}
+		if prm, ok := com.Value.(*ssa.Parameter); ok && len(com.Args) == 1 {
+			// a function-typed parameter applied to one argument (escape(x)): resolved at the call sites of the enclosing
+			// function, where the parameter is bound to a known function
+			pidx := -1
+			for i, q := range prm.Parent().Params {
+				if q == prm {
+					pidx = i
+				}
+			}
+			return []leaf{{Kind: "FPARAM", Info: fmt.Sprintf("%s#%s", ssaFuncName(prm.Parent()), prm.Name()), Const: fmt.Sprint(pidx), Inner: f.cl(com.Args[0], depth+1, seen), Pos: call.Pos()}}
+		}
 		return []leaf{{Kind: "CALL", Info: "dynamic", Pos: call.Pos()}}
 	}
 	name := ssaFuncName(callee)
@@ -444,6 +475,64 @@ func (f *flow) substParams(l leaf, callee *ssa.Function, args []ssa.Value, depth
 		var inner []leaf
 		for _, il := range l.Inner {
 			inner = append(inner, f.substParams(il, callee, args, depth, seen)...)
+		}
+		l.Inner = inner
+	}
+	if l.Kind == "FPARAM" && strings.HasPrefix(l.Info, ssaFuncName(callee)+"#") {
+		var i int
+		fmt.Sscan(l.Const, &i)
+		if i >= 0 && i < len(args) {
+			return f.applyFuncValue(args[i], l)
+		}
+	}
+	return []leaf{l}
+}
+
+// applyFuncValue: the function value fv applied to the argument whose classification is app.Inner.
+func (f *flow) applyFuncValue(fv ssa.Value, app leaf) []leaf {
+	if mc, ok := fv.(*ssa.MakeClosure); ok {
+		fv = mc.Fn
+	}
+	if ct, ok := fv.(*ssa.ChangeType); ok {
+		fv = ct.X
+	}
+	fn, ok := fv.(*ssa.Function)
+	if !ok {
+		return []leaf{{Kind: "CALL", Info: "dynamic", Pos: app.Pos}}
+	}
+	name := ssaFuncName(fn)
+	if name == "html.EscapeString" {
+		return []leaf{{Kind: "ESCAPED", Info: name, Inner: app.Inner, Pos: app.Pos}}
+	}
+	if i, ok := passThrough[name]; ok && i == 0 {
+		return app.Inner
+	}
+	// in-module function (or literal) of one parameter: its returns with the parameter replaced by the argument
+	if fn.Blocks != nil && len(fn.Params) == 1 {
+		var out []leaf
+		for _, b := range fn.Blocks {
+			for _, ins := range b.Instrs {
+				if ret, ok := ins.(*ssa.Return); ok && len(ret.Results) == 1 {
+					for _, rl := range f.classify(ret.Results[0]) {
+						out = append(out, substLeaf(rl, ssaFuncName(fn)+"#", app.Inner)...)
+					}
+				}
+			}
+		}
+		return out
+	}
+	return []leaf{{Kind: "CALL", Info: name + "#0", Pos: app.Pos}}
+}
+
+// substLeaf replaces PARAM leaves of the function with the given name prefix by repl.
+func substLeaf(l leaf, prefix string, repl []leaf) []leaf {
+	if l.Kind == "PARAM" && strings.HasPrefix(l.Info, prefix) {
+		return repl
+	}
+	if len(l.Inner) > 0 {
+		var inner []leaf
+		for _, il := range l.Inner {
+			inner = append(inner, substLeaf(il, prefix, repl)...)
 		}
 		l.Inner = inner
 	}
